@@ -257,3 +257,30 @@ pub fn compare(sc: &Scenario, out: &RunOut, ci: usize) -> (ExpConv, Vec<Disc>) {
     }
     (e, d)
 }
+
+/// The server released the connection while bytes of the connection-ending request it had
+/// delivered were still unread: with a kernel socket that close is answered by a reset, which
+/// destroys response bytes still on their way.  Only judged when the client sent nothing
+/// beyond that request and sent its body completely.
+pub fn closed_with_unread(sc: &Scenario, out: &RunOut, ci: usize, e: &ExpConv) -> Option<(String, usize)> {
+    let main = out.obs.snaps.get("main")?;
+    let total = sent_bytes(&sc.conns[ci]).len();
+    let ender = e.msgs.iter().find(|m| m.last && m.class == Class::Valid)?;
+    let id = ender.id.clone()?;
+    if !e.delivered.contains(&id) || !ender.body_complete || ender.end != total {
+        return None;
+    }
+    // an upgrade request's "body" is the rest of the connection: nothing obliges anybody to read it
+    if !matches!(ender.framing, crate::httpmodel::Framing::Length(_) | crate::httpmodel::Framing::Chunked) {
+        return None;
+    }
+    if !out.obs.conns[ci].script_done || sc.conns[ci].steps.iter().any(|s| matches!(s, ClientStep::Close { .. } | ClientStep::Reset)) {
+        return None;
+    }
+    let dropped = main.conns.get(ci).map(|c| c.dropped_unread).unwrap_or(0);
+    if dropped > 0 {
+        Some((id, dropped))
+    } else {
+        None
+    }
+}
